@@ -661,7 +661,8 @@ def handler_index(st):
     for i, s in enumerate(st):
         if s.get("kind") == "CallExpr":
             t = text_of(s) or ""
-            if re.match(r"^(signal|sigaction)\(", t) and "SIGINT_handler" in t or re.match(r"^sigaction\(2,", t):
+            # SIGINT is 2 (the macro is expanded in the AST); a handler installed for another signal is not this statement
+            if re.match(r"^(signal|sigaction)\(2,", t) and "SIGINT_handler" in t or re.match(r"^sigaction\(2,", t):
                 idx.append(i)
     return idx
 
